@@ -51,6 +51,13 @@ def caller_functions():
             callkw = "staticcall" if m in ("v", "u") else "extcall"
             L += ["@external", f"def {name}(x: uint256) -> {vt}:", f"    return {callkw} C(self.t).fd_{ty}_{m}(x{kw})", ""]
             fns.append((name, ty, m, skip, dflt))
+        # the same extcall in STATEMENT position (result discarded): must fail closed exactly like d_<ty>_n_<skip><dflt>
+        for skip, dflt in ([(False, False)] + ([(False, True), (True, False)] if ty in DEFAULTS else [])):
+            kws = (["skip_contract_check=True"] if skip else []) + ([f"default_return_value={DEFAULTS[ty][0]}"] if dflt else [])
+            kw = "".join(", " + k for k in kws)
+            name = f"ds_{ty}_n_{int(skip)}{int(dflt)}"
+            L += ["@external", f"def {name}(x: uint256):", f"    extcall C(self.t).fd_{ty}_n(x{kw})", ""]
+            fns.append((name, ty, "n", skip, dflt))
     return L, fns
 
 
